@@ -600,8 +600,8 @@ func TestC40(t *testing.T) {
 		Oracle:   oracle,
 		Fixed:    fixedCases,
 		Extra:    extra,
-		Quick:    3000,
-		Thorough: 40000,
+		Quick:    1500,
+		Thorough: 20000,
 	})
 }
 
